@@ -235,6 +235,8 @@ def run(F, rep, tier):
     rule_r3(F, rep)
     from . import objflags
     objflags.rule(F, rep, "C02.R4")
+    from . import visibility
+    visibility.rule(F, rep, "C07.R4")
     rep.assume("value-level semantics (arithmetic results, environments, defaults, inheritance) are not decided: "
                "no reference interpreter is in reach of static analysis")
     rep.trust("Jsonnet specification operator typing, transcribed in rules/c02.py")
